@@ -232,21 +232,28 @@ int sim_pthread_join(pthread_t t, void **ret) {
 	return 0;
 }
 pthread_t sim_pthread_self(void) { return (pthread_t)(SIM_PTHREAD_BASE + (unsigned)sim_self()); }
+/* Keys are process wide and never run out here (the pool's key is a static of the library that survives from run to
+ * run inside a worker; a library that wrongly makes a new key per pool must misbehave the same way in the first run of
+ * a fresh process as in the thousandth of an old one). Each thread keeps a handful of (key, value) pairs. */
 int sim_pthread_key_create(pthread_key_t *key, void (*dtor)(void *)) {
 	(void)dtor;
-	if (g_nkeys >= SIM_MAX_KEYS) return EAGAIN;
-	*key = (pthread_key_t)g_nkeys++;
+	*key = (pthread_key_t)(1 + g_nkeys++);
 	return 0;
 }
 void *sim_pthread_getspecific(pthread_key_t key) {
 	int c = sim_self();
-	if (c < 0 || key >= SIM_MAX_KEYS) return NULL;
-	return S.fb[c].tls[key];
+	if (c < 0 || 0 == key) return NULL;
+	for (int i = 0; i < SIM_MAX_KEYS; i++) if (S.fb[c].tls_key[i] == (unsigned)key) return S.fb[c].tls[i];
+	return NULL;
 }
 int sim_pthread_setspecific(pthread_key_t key, const void *val) {
-	int c = sim_self();
-	if (c < 0 || key >= SIM_MAX_KEYS) return EINVAL;
-	S.fb[c].tls[key] = (void *)(uintptr_t)val;
+	int c = sim_self(), slot = -1;
+	if (c < 0 || 0 == key) return EINVAL;
+	for (int i = 0; i < SIM_MAX_KEYS; i++) if (S.fb[c].tls_key[i] == (unsigned)key) { slot = i; break; }
+	if (slot < 0) for (int i = 0; i < SIM_MAX_KEYS; i++) if (0 == S.fb[c].tls_key[i] || NULL == S.fb[c].tls[i]) { slot = i; break; }
+	if (slot < 0) return ENOMEM;
+	S.fb[c].tls_key[slot] = (unsigned)key;
+	S.fb[c].tls[slot] = (void *)(uintptr_t)val;
 	return 0;
 }
 int sim_pthread_setaffinity_np(pthread_t t, size_t sz, const void *set) { (void)t; (void)sz; (void)set; return 0; }
